@@ -33,7 +33,7 @@ class Packet:
         Note: as a performance optimization, subsequent calls to this method
         will return a cached encoded packet, even if the data has changed.
         """
-        if self.encode_cache:
+        if self.encode_cache and not self.binary:
             return self.encode_cache
         if self.binary:
             if b64:
@@ -50,7 +50,9 @@ class Packet:
                                                   separators=(',', ':'))
             elif self.data is not None:
                 encoded_packet += str(self.data)
-        self.encode_cache = encoded_packet
+            # binary packets have a different encoding for each kind of
+            # channel, so only the text encoding is cached
+            self.encode_cache = encoded_packet
         return encoded_packet
 
     def decode(self, encoded_packet):
